@@ -36,6 +36,7 @@ type World struct {
 	EntryUsed map[string]int
 	lenRelC   map[string][]lenRel
 	intLenC map[string][]int
+	elemC   map[elemKey]*elemBound
 	condC     map[string][]condFact
 }
 
